@@ -107,12 +107,17 @@ func genCell(t *rapid.T, cell int) Case {
 	}
 
 	c.Hello = sim.HelloSpec{
-		Caps:      caps,
-		Prefix:    rapid.SampledFrom([]string{"", "", "nc", "nc"}).Draw(t, "prefix"),
-		Layout:    rapid.SampledFrom([]string{"line", "pretty"}).Draw(t, "layout"),
-		Decl:      rapid.Bool().Draw(t, "decl"),
-		ExtraAttr: rapid.SampledFrom([]string{"", "", ` xmlns:x="urn:x"`, ` foo="bar"`}).Draw(t, "extraAttr"),
-		TrailLF:   rapid.Bool().Draw(t, "trailLF"),
+		Caps:         caps,
+		Prefix:       rapid.SampledFrom([]string{"", "", "nc", "nc"}).Draw(t, "prefix"),
+		Layout:       rapid.SampledFrom([]string{"line", "pretty"}).Draw(t, "layout"),
+		Decl:         rapid.Bool().Draw(t, "decl"),
+		ExtraAttr:    rapid.SampledFrom([]string{"", "", ` xmlns:x="urn:x"`, ` foo="bar"`}).Draw(t, "extraAttr"),
+		TrailLF:      rapid.Bool().Draw(t, "trailLF"),
+		AttrFirst:    rapid.Bool().Draw(t, "attrFirst"),
+		SingleQuotes: rapid.IntRange(0, 3).Draw(t, "singleQuotes") == 0,
+		Lead: rapid.SampledFrom([]string{"", "", "", "<!-- No zombies were killed during the creation of this user interface -->\n<!-- user admin, class j-super-user -->\n",
+			"Warning: Permanently added '[10.0.0.1]:830' (ED25519) to the list of known hosts.\r\n", "Authorized users only\n\n"}).Draw(t, "lead"),
+		InnerWS: rapid.SampledFrom([]string{"", "", "", " ", "\n      "}).Draw(t, "innerWS"),
 	}
 
 	if c.Hello.Prefix == "nc" && rapid.Bool().Draw(t, "randPrefix") {
